@@ -130,6 +130,9 @@ type IdP struct {
 	NoEndSession bool
 	JWKSHits     int64
 	DiscHits     int64
+	// JWKSBody / DiscBody, if set, are served verbatim instead of the generated documents.
+	JWKSBody *string
+	DiscBody *string
 	Tag          string
 }
 
@@ -251,6 +254,9 @@ func (p *IdP) ServeHTTP(w http.ResponseWriter, r *http.Request) {
 		}
 		p.mu.Lock()
 		body := JWKS(p.Keys)
+		if p.JWKSBody != nil {
+			body = *p.JWKSBody
+		}
 		p.mu.Unlock()
 		w.Header().Set("Content-Type", "application/json")
 		_, _ = w.Write([]byte(body))
@@ -264,6 +270,9 @@ func (p *IdP) ServeHTTP(w http.ResponseWriter, r *http.Request) {
 			d["end_session_endpoint"] = p.EndSessionURL()
 		}
 		b, _ := json.Marshal(d)
+		if p.DiscBody != nil {
+			b = []byte(*p.DiscBody)
+		}
 		w.Header().Set("Content-Type", "application/json")
 		_, _ = w.Write(b)
 	default:
